@@ -293,7 +293,7 @@ def validate_records(ck, recs, name, expect_reject=False, per_file=60):
         files.append((str(f), len(ch)))
     from concurrent.futures import ThreadPoolExecutor
     with ThreadPoolExecutor(max(1, min(c.NPROC, len(files)))) as ex:
-        results = list(ex.map(lambda fl: c.tlc("LinksTrace", "Lk_trace.cfg", workers=1, env={"TRACE_FILE": fl[0]}, check=False), files))
+        results = list(ex.map(lambda fl: c.tlc("LinksTrace", "Lk_trace.cfg", workers=1, env={"TRACE_FILE": fl[0], "JAVA_TOOL_OPTIONS": "-Xss64m -XX:ParallelGCThreads=2"}, check=False), files))
     rejected, skipped, off = {}, set(), 0
     for (path, n), res in zip(files, results):
         rej = res.tagged("REJECTED")
